@@ -143,7 +143,11 @@ class Ladder:
                     return AVal(k, fresh, "%s.as_non_alignment()" % fn.value.id)
                 if fn.attr in ("_compose_before", "_compose_after") and len(e.args) == 1 and isinstance(e.args[0], ast.Name) and e.args[0].id in env:
                     other = env[e.args[0].id]
-                    return self.run(recv.cls, other.cls, fn.attr)
+                    sub = self.run(recv.cls, other.cls, fn.attr)
+                    # delegating with the roles swapped must also swap the direction
+                    if fn.attr == f.name and env[fn.value.id].how == "t" and other.how == "self":
+                        sub.order_errors = getattr(sub, "order_errors", []) + [(e, "%s delegates to t.%s(self): with the operands exchanged the direction must be exchanged too" % (f.short, fn.attr))]
+                    return sub
             k = self.resolve_cls(f, fn) if isinstance(fn, (ast.Name, ast.Attribute)) else None
             if k is not None:
                 return AVal(k, self.ctor_fresh(e, f, k), norm(e)[:40])
@@ -201,11 +205,16 @@ class Ladder:
                     tgt = env[c.func.value.id]
                     env[c.func.value.id] = AVal(tgt.cls, tgt.fresh, tgt.how)
                     env.setdefault("__mutated__", []).append((c.func.value.id, tgt, st))
+                    want = f.name + "_inplace"
+                    arg_ok = len(c.args) == 1 and isinstance(c.args[0], ast.Name) and c.args[0].id in env and env[c.args[0].id].how == "t"
+                    if c.func.attr != want or not arg_ok:
+                        env.setdefault("__order__", []).append((st, "%s composes with `%s`; composing the copy of self with t in %s must use %s(t)" % (f.short, norm(c)[:50], f.name, want)))
                     continue
                 raise AnalysisError("C03.R1: unexpected call `%s` in the ladder" % norm(c)[:60])
             if isinstance(st, ast.Return):
                 v = self.value(f, st.value, env)
                 v.mutated = env.get("__mutated__", [])
+                v.order_errors = getattr(v, "order_errors", []) + env.get("__order__", [])
                 v.ret = st
                 v.func = f
                 return v
@@ -244,6 +253,8 @@ def rule_r1(p, res):
                                 "dishonest" % (A.name, which, B.name, v.cls.name, kA, kB, want))
                 else:
                     r.ok({"pair": [A.name, B.name], "op": which, "result": v.cls.name, "needs": want})
+                for st_, msg in getattr(v, "order_errors", []):
+                    r.violation(f, st_, "%s.%s(%s): %s -- the composite would apply the two maps in the wrong order" % (A.name, which, B.name, msg))
                 # (c) freshness of every object composed in place
                 for nm, tgt, st in getattr(v, "mutated", []):
                     if not tgt.fresh:
@@ -494,6 +505,9 @@ WITNESSES = [
             "new_self = Similarity(self.h_matrix)", "new_self = Similarity(self.h_matrix, copy=False)", rule="C03.R1", construct="Homogeneous._compose_before"),
     Witness("C03.W9", "menpo/transform/base/__init__.py", "Transform.compose_after",
             "TransformChain([transform, self])", "TransformChain([self, transform])", rule="C03.R3", construct="Transform.compose_after"),
+    Witness("C03.W10", "menpo/transform/homogeneous/base.py", "Homogeneous._compose_after",
+            "new_self = Similarity(self.h_matrix)\n        new_self._compose_after_inplace(t)", "new_self = Similarity(self.h_matrix)\n        new_self._compose_before_inplace(t)",
+            rule="C03.R1", construct="Homogeneous._compose_after", note="seeded change C03-A"),
     Witness("C03.T1", "menpo/transform/homogeneous/base.py", "Homogeneous._compose_before_inplace",
             "np.dot(transform.h_matrix, self.h_matrix)", "transform.h_matrix.dot(self.h_matrix)", kind="T"),
 ]
